@@ -90,6 +90,23 @@ def r1_solve_loop(R) -> None:
         R.check(not jumps, q, 'no-jumps', 'every period of the range is visited', f'the period loop contains `{jumps[0].label() if jumps else ""}`', where=f.where(loop))
 
 
+PER_PERIOD_ERRORS = ('IndexError', 'SolutionError', 'NonConvergenceError', 'DimensionError')
+
+
+def r1b_no_per_period_rejection_up_front(R) -> None:
+    """solve() is the ordered sequence of single-period solves: an error that belongs to one period (an offset that
+    runs off the span at the last period, a non-finite value, non-convergence) is raised by that period's solve_t(), after
+    the earlier periods were solved and stored - never by solve() itself before the loop."""
+    for q in ('fsic.core.interfaces.SolverMixin.solve', 'fsic.core.linkers.BaseLinker.solve'):
+        f = Fn(R, q)
+        bad = [r for r in f.raises() if f.raised(r) in PER_PERIOD_ERRORS]
+        for r in bad:
+            R.violation(q, f'per-period-error-raised-by-solve:{f.raised(r)}', f'`{text(r.ast)[:70]}`: solve() raises {f.raised(r)} itself; such a condition belongs to the period it '
+                        f'concerns and is raised by that period\'s solve_t() after the earlier periods have been solved and recorded', where=f.where(r))
+        if not bad:
+            R.ok(q, 'solve() raises no per-period error class itself')
+
+
 def r2_iter_periods(R) -> None:
     q = 'fsic.core.interfaces.SolverMixin.iter_periods'
     f = Fn(R, q)
@@ -246,7 +263,7 @@ def run(R) -> None:
         'consumers by a small NumPy-scalar provenance lattice. Containment of failures follows from this and C04.R1 (only position t is '
         'written). Does not decide list/pandas index semantics.'
     )
-    R.rule('C05.R1', lambda: r1_solve_loop(R))
+    R.rule('C05.R1', lambda: (r1_solve_loop(R), r1b_no_per_period_rejection_up_front(R)))
     R.rule('C05.R2', lambda: r2_iter_periods(R))
     R.rule('C05.R3', lambda: (r3_validation_first(R), r3b_single_position(R)))
     R.rule('C05.R4', lambda: r4_containment(R))
